@@ -771,7 +771,8 @@ fn check_icy(c: &IcyCase) -> Verdict {
     let cont_effective = c.flags & FLAG_VISIBLE != 0 && c.flags & FLAG_EDIT_LOCK == 0 && c.flags & (FLAG_HAS_ALPHA | FLAG_ALPHA_LOCKED) != (FLAG_HAS_ALPHA | FLAG_ALPHA_LOCKED);
     let bad_title = std::str::from_utf8(&c.title).is_err();
     let bad_font = c.font_name.as_ref().map(|n| std::str::from_utf8(n).is_err()).unwrap_or(false);
-    let nontrivial = !bad_first.is_empty() || (!bad_cont.is_empty() && cont_effective) || bad_title || bad_font;
+    let high_sauce = c.sauce.as_ref().map(|s| [&s.title, &s.author, &s.group, &s.tinfos].iter().any(|b| b.iter().any(|x| *x >= 0x80)) || s.comments.iter().any(|b| b.iter().any(|x| *x >= 0x80))).unwrap_or(false);
+    let nontrivial = !bad_first.is_empty() || (!bad_cont.is_empty() && cont_effective) || bad_title || bad_font || high_sauce;
 
     let buf = match Buffer::from_bytes(Path::new("x.icy"), false, &file) {
         Ok(b) => b,
@@ -1105,7 +1106,7 @@ fn main() {
          Observation: the raw u32 of every stored cell (Line::chars), of every cell returned by Layer::get_char / Buffer::get_char and of every BitFont::glyphs key via read_volatile; \
          from_utf8 on a volatile byte copy of every layer title, font name, SAUCE string, parser.parse_string / macro_dcs. Err / None results are accepted. \
          Non-trivial: the input carries a non-scalar number (surrogate or > 0x10FFFF) in a char field the loader reaches (non-empty DECFRA rectangle; clipboard cell inside w*h; icy cell in a \
-         chunk whose rows are stored; glyph count > 0xD800 with the font accepted), ill-formed UTF-8 in a title / font name, or a byte >= 0x80 in an invoked macro body. Distinct by case hash.",
+         chunk whose rows are stored; glyph count > 0xD800 with the font accepted), ill-formed UTF-8 in a title / font name, a byte >= 0x80 in a SAUCE text field, or a byte >= 0x80 in an invoked macro body. Cases that fail are not counted (they are violations or excluded_known). Distinct by case hash.",
     );
     eng.assume("a scan sees materialised values only; an invalid char that exists transiently (e.g. as a HashMap lookup key in BitFont::calculate_checksum / to_psf2_bytes) leaves no trace and is not observed");
     eng.assume("SAUCE record layout from the SAUCE rev. 5 document; .icy chunk layout from doc/FileFormats/ICEDFormat.md; the PNG container is written with the png crate");
@@ -1118,7 +1119,7 @@ fn main() {
     let ws = decfra_windows(thorough);
     let total = window_total(&ws);
     eng.enumerated_with_class(
-        PartCfg::new("decfra_windows", 0, 0).isolated().exhaustive(true).threads(1),
+        PartCfg::new("decfra_windows", 0, 0).isolated().heap_cap(512 << 20).shrink_budget(400).exhaustive(true).threads(1),
         total * 2,
         move |i| {
             let pc = window_value(&ws, i / 2);
@@ -1131,27 +1132,27 @@ fn main() {
         check_decfra,
         |_| "source=decfra".to_string(),
     );
-    eng.generated_with_class(PartCfg::new("decfra", 160_000, 2_500_000).isolated(), decfra_strategy, check_decfra, |_| "source=decfra".to_string());
+    eng.generated_with_class(PartCfg::new("decfra", 240_000, 2_500_000).isolated().heap_cap(512 << 20).shrink_budget(400), decfra_strategy, check_decfra, |_| "source=decfra".to_string());
 
     // (ii) clipboard
-    eng.enumerated_with_class(PartCfg::new("clipboard_u16", 0, 0).isolated().exhaustive(true).threads(1), 1 << 16, clip_enumerated, check_clip, |_| "source=clipboard".to_string());
-    eng.generated_with_class(PartCfg::new("clipboard", 60_000, 1_000_000).isolated(), clip_strategy, check_clip, |_| "source=clipboard".to_string());
+    eng.enumerated_with_class(PartCfg::new("clipboard_u16", 0, 0).isolated().heap_cap(512 << 20).shrink_budget(400).exhaustive(true).threads(1), 1 << 16, clip_enumerated, check_clip, |_| "source=clipboard".to_string());
+    eng.generated_with_class(PartCfg::new("clipboard", 100_000, 1_000_000).isolated().heap_cap(512 << 20).shrink_budget(400), clip_strategy, check_clip, |_| "source=clipboard".to_string());
 
     // (iii) IcyDraw
-    eng.enumerated_with_class(PartCfg::new("icy_table", 0, 0).isolated().exhaustive(true).threads(1), icy_table_total(), icy_table, check_icy, |_| "source=icy".to_string());
-    eng.generated_with_class(PartCfg::new("icy", 60_000, 1_000_000).isolated(), icy_strategy, check_icy, |_| "source=icy".to_string());
+    eng.enumerated_with_class(PartCfg::new("icy_table", 0, 0).isolated().heap_cap(512 << 20).shrink_budget(400).exhaustive(true).threads(1), icy_table_total(), icy_table, check_icy, |_| "source=icy".to_string());
+    eng.generated_with_class(PartCfg::new("icy", 100_000, 1_000_000).isolated().heap_cap(512 << 20).shrink_budget(400), icy_strategy, check_icy, |_| "source=icy".to_string());
 
     // (iv) fonts
-    eng.enumerated_with_class(PartCfg::new("font_table", 0, 0).isolated().exhaustive(true).threads(4), FONT_COUNTS.len() as u64 * 9, font_table, check_font, |c| {
+    eng.enumerated_with_class(PartCfg::new("font_table", 0, 0).isolated().heap_cap(512 << 20).shrink_budget(400).exhaustive(true).threads(4), FONT_COUNTS.len() as u64 * 9, font_table, check_font, |c| {
         format!("source={}", FONT_FMT[(c.fmt % 4) as usize])
     });
-    eng.generated_with_class(PartCfg::new("fonts", 4_000, 40_000).isolated().timeout_ms(60_000), font_strategy, check_font, |c| format!("source={}", FONT_FMT[(c.fmt % 4) as usize]));
+    eng.generated_with_class(PartCfg::new("fonts", 6_000, 40_000).isolated().heap_cap(512 << 20).shrink_budget(400).timeout_ms(60_000), font_strategy, check_font, |c| format!("source={}", FONT_FMT[(c.fmt % 4) as usize]));
 
     // (v) macros
-    eng.enumerated_with_class(PartCfg::new("macro_bytes", 0, 0).isolated().exhaustive(true).threads(1), 1024 + 2 * BAD_UTF8.len() as u64, macro_table, check_macro, |c| {
+    eng.enumerated_with_class(PartCfg::new("macro_bytes", 0, 0).isolated().heap_cap(512 << 20).shrink_budget(400).exhaustive(true).threads(1), 1024 + 2 * BAD_UTF8.len() as u64, macro_table, check_macro, |c| {
         format!("source={}", if c.hex { "hex_macro" } else { "text_macro" })
     });
-    eng.generated_with_class(PartCfg::new("macros", 60_000, 1_000_000).isolated(), macro_strategy, check_macro, |c| format!("source={}", if c.hex { "hex_macro" } else { "text_macro" }));
+    eng.generated_with_class(PartCfg::new("macros", 100_000, 1_000_000).isolated().heap_cap(512 << 20).shrink_budget(400), macro_strategy, check_macro, |c| format!("source={}", if c.hex { "hex_macro" } else { "text_macro" }));
 
     eng.run();
 }
